@@ -194,8 +194,12 @@ def main(argv=None):
     # VERIF_SEED only rotates the enumeration order; the set is always complete
     order = list(range(ncases))
     random.Random(seed).shuffle(order)
+    limit = int(os.environ.get("VERIF_CASE_LIMIT", "0") or 0)
+    if limit:
+        # audit aid only (tools/cov_audit.sh): a prefix of the shuffled case list; the run is reported as not exhaustive
+        order = order[:limit]
     chunk_n = getattr(mod, "CHUNK", None) or max(1, min(64, ncases // (NWORKERS * 8) or 1))
-    chunks = [[all_cases[i] for i in order[k:k + chunk_n]] for k in range(0, ncases, chunk_n)]
+    chunks = [[all_cases[i] for i in order[k:k + chunk_n]] for k in range(0, len(order), chunk_n)]
 
     merged = Merged()
     capped = False
